@@ -353,6 +353,28 @@ theorem c17_validated_initialises (g : Genesis) (hv : validateGenesis g = .ok ()
     (by have := g7; simp only [List.any_eq_true, Bool.not_eq_true', not_exists, not_and, Bool.not_eq_false] at this; exact this) o4 (by intro a _; rw [r4, q4, a2]; simp)
   exact ⟨o5, by simp only [e1, Res.bind_ok, e2, e3, e4, e5]⟩
 
+/-- The same at the level of the JSON document the module is handed: a document accepted by `ValidateGenesis` has all
+four component sections and initialises (a document that omits a section, or spells it `null`, is refused — it would
+make `InitGenesis` panic). -/
+theorem c17_doc_validated_initialises (d : GenesisDoc) (hv : validateGenesisDoc d = .ok ()) :
+    d.nilSections = [] ∧ ∃ o, initGenesisDoc d = .ok o := by
+  unfold validateGenesisDoc at hv
+  cases hn : d.nilSections with
+  | cons a t => simp [hn] at hv
+  | nil =>
+    simp only [hn, List.isEmpty_nil, Bool.not_true, Bool.false_eq_true, ↓reduceIte] at hv
+    refine ⟨rfl, ?_⟩
+    unfold initGenesisDoc
+    simp only [hn, List.isEmpty_nil, Bool.not_true, Bool.false_eq_true, ↓reduceIte]
+    exact c17_validated_initialises d.body hv
+
+theorem c17_doc_nil_section_refused (d : GenesisDoc) (h : d.nilSections ≠ []) :
+    validateGenesisDoc d = .err "genesis:nil-section" ∧ ∃ s, initGenesisDoc d = .panic s := by
+  unfold validateGenesisDoc initGenesisDoc
+  cases hn : d.nilSections with
+  | nil => exact absurd hn h
+  | cons a t => simp
+
 /-! ### non-vacuity: a non-trivial state satisfying the invariant -/
 example : crossChainValid 2 "5" = true ∧ crossChainValid 1 "channel-0" = true := by decide
 
